@@ -18,7 +18,7 @@ import ast
 import collections
 import dataclasses
 import struct
-from typing import Any, Dict, List, Optional, Tuple
+from typing import Any, Dict, List, Optional, Set, Tuple
 
 from ..absint import Evaluator, Const, Sym, Obj, Digest, TOP, NOT_HANDLED
 from ..cfg import cfg_of
@@ -67,6 +67,53 @@ def branches(h: Func) -> List[Tuple[List[str], ast.If]]:
     return out
 
 
+def branch_nodes(ctx: Ctx, h: Func, br: ast.AST, elt: str) -> List[Tuple[Func, str, ast.AST]]:
+    """(function, name of the hashed value there, node) for every node of a type branch and of the package helpers
+    the branch hands the value itself to (`_int_encoding(elt)`): a refactoring may move a branch's encoding there."""
+    out: List[Tuple[Func, str, ast.AST]] = []
+    seen: Set[str] = {h.qname}
+
+    def go(f: Func, root: ast.AST, name: str, depth: int) -> None:
+        for n in ast.walk(root):
+            out.append((f, name, n))
+            if isinstance(n, ast.Call) and depth < 3:
+                fs, _ = ctx.prog.callees(f, n, ctx._types)
+                for g in fs:
+                    if g.qname in seen or not g.module.name.startswith("dds"):
+                        continue
+                    for i, a in enumerate(n.args):
+                        if isinstance(a, ast.Name) and a.id == name and i < len(g.params):
+                            seen.add(g.qname)
+                            for st in g.node.body:
+                                go(g, st, g.params[i], depth + 1)
+    go(h, br, elt, 0)
+    return out
+
+
+def preimages(ctx: Ctx, f: Func, a: ast.AST, depth: int = 0) -> List[Tuple[Func, ast.AST]]:
+    """the expressions that an `_algo*(a)` argument can evaluate to, looking through package helpers (their return
+    expressions) and single-definition locals"""
+    if isinstance(a, ast.Call) and depth < 3:
+        fs, _ = ctx.prog.callees(f, a, ctx._types)
+        fs = [g for g in fs if g.module.name.startswith("dds") and not g.name.startswith("_algo")]
+        if fs:
+            out: List[Tuple[Func, ast.AST]] = []
+            for g in fs:
+                for r in g.own_nodes():
+                    if isinstance(r, ast.Return) and r.value is not None:
+                        out += preimages(ctx, g, r.value, depth + 1)
+            return out
+    if isinstance(a, ast.Name) and depth < 3:
+        from ..flow import flow_of
+        ds = flow_of(ctx.prog, f).defs_of_use(a) if cfg_of(f).nodes_of(a) else []
+        if ds and all(d.kind == "assign" and d.value is not None for d in ds):
+            out = []
+            for d in ds:
+                out += preimages(ctx, f, d.value, depth + 1)
+            return out
+    return [(f, a)]
+
+
 def run(ctx: Ctx) -> None:
     rep = ctx.report
     prog = ctx.prog
@@ -87,46 +134,46 @@ def run(ctx: Ctx) -> None:
     n1 = 0
     for names, br in brs:
         is_int = "int" in names
-        for n in ast.walk(br):
+        for hf, elt_, n in branch_nodes(ctx, h, br, elt):
             if not isinstance(n, ast.Call):
                 continue
-            d = prog.dotted(h, n.func) or ""
-            where = h.loc(n)
+            d = prog.dotted(hf, n.func) or ""
+            where = hf.loc(n)
             if d == "struct.pack" and n.args and isinstance(n.args[0], ast.Constant):
                 fmt = n.args[0].value
                 code = fmt.lstrip("!<>=@")
                 if code in INT_CODES or code == "f":
                     n1 += 1
                     lo, hi = INT_CODES.get(code, (None, None))
-                    desc = f"struct.pack({fmt!r}, {elt}) is applied only to values in the range of the format"
-                    guard_ok, wit = _range_guard(ctx, h, n, elt, lo, hi)
+                    desc = f"struct.pack({fmt!r}, {elt_}) is applied only to values in the range of the format"
+                    guard_ok, wit = _range_guard(ctx, hf, n, elt_, lo, hi)
                     if guard_ok:
-                        rep.ok("C05.R1", h.qname, desc, where)
+                        rep.ok("C05.R1", hf.qname, desc, where)
                     else:
-                        rep.bad("C05.R1", h.qname, desc, where, wit + [f"counterexample: dds_hash({hi}) raises struct.error ({fmt!r} requires {lo} <= number < {hi})"],
+                        rep.bad("C05.R1", hf.qname, desc, where, wit + [f"counterexample: dds_hash({hi}) raises struct.error ({fmt!r} requires {lo} <= number < {hi})"],
                                 f"pack:{fmt}", what=f"struct.pack({fmt!r}) on an unbounded int raises struct.error")
                 elif code == "d":
                     n1 += 1
-                    rep.ok("C05.R1", h.qname, f"struct.pack({fmt!r}) is total on float", where, nontrivial=False)
+                    rep.ok("C05.R1", hf.qname, f"struct.pack({fmt!r}) is total on float", where, nontrivial=False)
             elif isinstance(n.func, ast.Attribute) and n.func.attr == "to_bytes":
                 n1 += 1
                 desc = "int.to_bytes is given a length that always holds the value including its sign bit"
                 ln = unparse(n.args[0]) if n.args else ""
                 if n.args and isinstance(n.args[0], ast.Name):
                     from ..flow import flow_of
-                    ds = flow_of(prog, h).defs_of_use(n.args[0])
+                    ds = flow_of(prog, hf).defs_of_use(n.args[0])
                     if len(ds) == 1 and ds[0].value is not None:
                         ln = unparse(ds[0].value)
                 ok = ("bit_length() + 8" in ln or "bit_length() + 9" in ln or ln.endswith("// 8 + 1") or ln.endswith("//8+1"))
                 if ok:
-                    rep.ok("C05.R1", h.qname, desc, where)
+                    rep.ok("C05.R1", hf.qname, desc, where)
                 else:
-                    rep.bad("C05.R1", h.qname, desc, where, [f"{where}: length `{ln}`: for a positive value whose bit length is a multiple of 8 there is no room for the "
+                    rep.bad("C05.R1", hf.qname, desc, where, [f"{where}: length `{ln}`: for a positive value whose bit length is a multiple of 8 there is no room for the "
                             "sign bit: OverflowError (e.g. 2**31, 10**12, 2**63)"], "to_bytes", what="int.to_bytes with a too short length raises OverflowError for some integers")
             elif is_int and (d in ("str", "repr") or (d == "format" and len(n.args) > 1 and isinstance(n.args[1], ast.Constant) and n.args[1].value in ("", "d", "n"))):
-                if n.args and isinstance(n.args[0], ast.Name) and n.args[0].id == elt:
+                if n.args and isinstance(n.args[0], ast.Name) and n.args[0].id == elt_:
                     n1 += 1
-                    rep.bad("C05.R1", h.qname, "decimal conversion of an unbounded int is guarded", where,
+                    rep.bad("C05.R1", hf.qname, "decimal conversion of an unbounded int is guarded", where,
                             [f"{where}: `{unparse(n, 50)}`: CPython limits int -> decimal str conversion (4300 digits): dds_hash(10**5000) raises ValueError"],
                             "int-decimal", what="decimal conversion of an unbounded int raises ValueError for huge values")
     rep.floor("C05.R1", n1, 2)
@@ -329,13 +376,13 @@ def run(ctx: Ctx) -> None:
         label = "/".join(names)
         for n in ast.walk(br):
             if isinstance(n, ast.Call) and isinstance(n.func, ast.Name) and n.func.id.startswith("_algo") and n.args:
-                a = n.args[0]
-                if isinstance(a, ast.Call) and (prog.dotted(h, a.func) or "") == "struct.pack" and isinstance(a.args[0], ast.Constant):
-                    widths.setdefault(label, []).append(struct.calcsize(a.args[0].value))
-                elif isinstance(a, ast.BinOp) and isinstance(a.op, ast.Add) and _const_bytes(ctx, h, a.left) is not None:
-                    tags.append((label, _const_bytes(ctx, h, a.left), h.loc(n)))
-                else:
-                    other.append(f"{h.loc(n)}: numeric pre-image `{unparse(a, 60)}` is neither a fixed-width pack nor a tagged encoding")
+                for pf, a in preimages(ctx, h, n.args[0]):
+                    if isinstance(a, ast.Call) and (prog.dotted(pf, a.func) or "") == "struct.pack" and a.args and isinstance(a.args[0], ast.Constant):
+                        widths.setdefault(label, []).append(struct.calcsize(a.args[0].value))
+                    elif isinstance(a, ast.BinOp) and isinstance(a.op, ast.Add) and _const_bytes(ctx, pf, a.left) is not None:
+                        tags.append((label, _const_bytes(ctx, pf, a.left), pf.loc(a)))
+                    else:
+                        other.append(f"{pf.loc(a)}: numeric pre-image `{unparse(a, 60)}` is neither a fixed-width pack nor a tagged encoding")
     allw = sorted({w for ws in widths.values() for w in ws})
     wit = []
     per = {k: sorted(set(v)) for k, v in widths.items()}
